@@ -485,7 +485,7 @@ func run(t *testing.T, sc Scenario, record bool) *detsim.Outcome {
 				if mode == simprom.ModeWrongType && req.Endpoint != promapi.APIPathQuery && req.Endpoint != promapi.APIPathQueryRange {
 					mode = simprom.ModeGarbage
 				}
-				return simprom.Fault{Mode: mode, DelayNs: int64(1000 + req.ID)}
+				return simprom.Fault{Mode: mode}
 			}
 			idx := i
 			srv.StartCtx(nw, nil, func(k int, _ any) (simnet.DialAction, any) {
@@ -511,7 +511,7 @@ func run(t *testing.T, sc Scenario, record bool) *detsim.Outcome {
 				return simnet.DialOK, connTag{mode: mode}
 			})
 			servers = append(servers, srv)
-			proms = append(proms, promapi.NewPrometheus("sim", "http://"+host, "http://sim.example.com", nil, 5*time.Second, sc.Concurrency, 100000, nil))
+			proms = append(proms, promapi.NewPrometheus("sim", "http://"+host, "http://sim.example.com", nil, 5*time.Second, sc.Concurrency, 2000000000, nil))
 		}
 		fg := promapi.NewFailoverGroup("sim", "http://sim.example.com", proms, false, "up", nil, nil, nil)
 		reg := prometheus.NewRegistry()
@@ -535,7 +535,7 @@ func run(t *testing.T, sc Scenario, record bool) *detsim.Outcome {
 			osrv.Start(nw, nil)
 			servers = append(servers, osrv)
 			ofg := promapi.NewFailoverGroup(fmt.Sprintf("other%d", o), "http://"+host, []*promapi.Prometheus{
-				promapi.NewPrometheus(fmt.Sprintf("other%d", o), "http://"+host, "", nil, 10*time.Minute, 4, 100000, nil),
+				promapi.NewPrometheus(fmt.Sprintf("other%d", o), "http://"+host, "", nil, 10*time.Minute, 4, 2000000000, nil),
 			}, false, "up", nil, nil, nil)
 			ofg.StartWorkers(reg)
 			defer ofg.Close(reg)
